@@ -17,6 +17,7 @@ import (
 	"encoding/xml"
 	"errors"
 	"fmt"
+	"io"
 	"strconv"
 	"strings"
 	"sync"
@@ -105,9 +106,11 @@ type world struct {
 	pad     int              // bytes of padding inside every ordinary response (0: none)
 	rn      atomic.Int64
 	late    atomic.Int64 // delayed peer replies not sent yet
-	serveCh chan error
-	loop    *sess.PeerLoop
-	rh      *receipts.Handler
+	// handlerRead: elements the handler read to their end
+	handlerRead atomic.Int64
+	serveCh     chan error
+	loop        *sess.PeerLoop
+	rh          *receipts.Handler
 
 	sentinelAnswered chan struct{}
 	sentinelOnce     sync.Once
@@ -170,6 +173,38 @@ func newWorld(c *core.Case, o sess.Opts) *world {
 	}
 	inner := xmpp.HandlerFunc(func(t xmlstream.TokenReadEncoder, start *xml.StartElement) error {
 		logIt(start)
+		// A handler decodes what it is handed: the start element plus the rest
+		// of the element, up to and including its end tag, then the end of input.
+		depth, last, n := 0, "", 0
+		var rerr error
+		for ; n < 100000; n++ {
+			tok, err := t.Token()
+			switch tk := tok.(type) {
+			case xml.StartElement:
+				depth++
+				last = "start"
+			case xml.EndElement:
+				depth--
+				last = "end:" + tk.Name.Local
+			case nil:
+			default:
+				last = "other"
+			}
+			if err != nil {
+				if err != io.EOF {
+					rerr = err
+				}
+				break
+			}
+			if tok == nil {
+				break
+			}
+		}
+		w.handlerRead.Add(1)
+		if rerr == nil && (depth != -1 || last != "end:"+start.Name.Local) {
+			rn, _ := strconv.Atoi(attrOf(*start, "rn"))
+			w.log.add(ev{Ev: "handler-incomplete", Kind: start.Name.Local, Typ: attrOf(*start, "type"), ID: attrOf(*start, "id"), RN: rn, Note: fmt.Sprintf("after %d tokens: depth %d, last token %q", n, depth, last)})
+		}
 		if start.Name.Local == "iq" && attrOf(*start, "type") == "get" {
 			id := attrOf(*start, "id")
 			top := xml.StartElement{Name: xml.Name{Local: "iq"}, Attr: []xml.Attr{{Name: xml.Name{Local: "type"}, Value: "result"}, {Name: xml.Name{Local: "id"}, Value: id}}}
